@@ -483,10 +483,10 @@ class Judge:
         built1 = set(k for k, v in sem1.val.items() if v is not None)
         rec1 = {k: list(sem1.real.get(k, [])) + list(sem1.rule(k).get("disc", [])) for k in built1}
         discipline = c["discipline"]
-        if discipline:
-            allowed = lambda x, y: y in sem2.real.get(x, ()) or y in rec1.get(x, ())
-        else:
-            allowed = lambda x, y: y in sem2.declared_all(x) or y in rec1.get(x, ())
+        # after a restart a rule that is not re-run keeps its old value although a fresh evaluation might not even reach it (its single-use
+        # requests are dropped from the records by design), so which branch a consumer takes cannot be predicted from the fresh evaluation:
+        # both branches count as declared; anything else must be a dependency recorded by the first build
+        allowed = lambda x, y: y in sem2.real.get(x, ()) or y in sem2.declared_all(x) or y in rec1.get(x, ())
         union = {}
         for k in set(list(c["rules2"]) + list(rec1)):
             union[k] = (list(sem2.real.get(k, [])) if discipline else sem2.declared_all(k)) + rec1.get(k, []) + list(sem2.rule(k).get("disc", []))
